@@ -14,7 +14,7 @@ import json
 import core
 
 LEVEL = "proof"
-EXTRA_TARGETS = ["model/IterTie.vo"]
+EXTRA_TARGETS = ["model/IterTie.vo", "model/IterEnvTie.vo"]
 
 SIZES = [[1, 1], [2, 1], [3, 2], [2, 3]]
 DURS = [1, 7, 40, None]  # None = DYNAMIC
@@ -280,9 +280,12 @@ HEADER = ("From Coq Require Import List ZArith.\nImport ListNotations.\n"
           "From TI Require Import model.Iter model.IterSpec model.IterTie.\nOpen Scope nat_scope.\n")
 
 
+IMPL_TIMEOUT = [900]  # seconds per driver process (raised in the thorough tier: the machine may be loaded)
+
+
 def evaluate(cases, tag="c08", bad="bad8"):
     """Returns (codes per case, errors, impl results)."""
-    impl = core.run_impl_parallel("impl_c08.py", cases)
+    impl = core.run_impl_parallel("impl_c08.py", cases, timeout=IMPL_TIMEOUT[0])
     terms = [case_t(c, r) for c, r in zip(cases, impl)]
     codes = [0] * len(cases)
     res, errors = core.coq_shards(tag, HEADER, terms, "tcase", f"{bad} cases", shard=150)
@@ -521,25 +524,485 @@ def report_failures(cases, codes, fails, tag, what, evaluate_fn):
     return failures
 
 
+# ================================================================= histories in a changing environment
+#
+# model/IterEnv.v: events = (terminal size in force, operation | client write to `.loop`); a second iterator
+# over the render data of the first.  Driver: impl_c08.py mode "env"; judged by model/IterEnvTie.v [check_env].
+
+TERMS = [[80, 30], [40, 10], [100, 50], [20, 5], [120, 24], [80, 24], [30, 30]]
+POKES = [0, 1, 2, -1, 1000]
+PADS_REL_ENV = PADS_REL + [["A", 0, -2, 1, 1], ["A", -10, -5, 0, 0], ["A", -3, 0, 2, 2]]
+
+
+def env_case(**kw):
+    c = base_case(mode="env", term0=[80, 30])
+    c.update(kw)
+    return c
+
+
+def second_cfg(ops, **kw):
+    c = {"args": "none", "pad": ["E", 0, 0, 0, 0], "loops": 1, "cache": False, "owns": False, "ops": ops}
+    c.update(kw)
+    return c
+
+
+def gen_env_case(rng, length=25):
+    """A history of gen_case with resizes (often followed by set_render_size / set_padding) and client writes
+    to `.loop` interleaved; terminal-relative paddings common."""
+    c = gen_case(rng, length, fault_p=0.05)
+    c["mode"] = "env"
+    c["term0"] = list(rng.choice(TERMS))
+    if rng.random() < 0.55:
+        c["pad"] = list(rng.choice(PADS_REL_ENV))
+    flavour = rng.choice(["resize", "resize", "poke", "both"])
+    p_resize = 0.13 if flavour != "poke" else 0.02
+    p_poke = 0.13 if flavour != "resize" else 0.02
+    if flavour != "resize" and c["n"] and c["loops"] == 1 and rng.random() < 0.7:
+        c["loops"] = rng.choice([2, 3, -1])
+    ops = []
+    for o in c["ops"]:
+        x = rng.random()
+        if x < p_resize:
+            ops.append(["resize", list(rng.choice(TERMS))])
+            y = rng.random()
+            if y < 0.45:
+                ops.append(["size", list(rng.choice(SIZES))])
+            elif y < 0.7:
+                ops.append(["pad", list(rng.choice(PADS_REL_ENV))])
+        elif x < p_resize + p_poke:
+            ops.append(["poke", rng.choice(POKES)])
+        if o[0] == "pad" and rng.random() < 0.5:
+            o = ["pad", list(rng.choice(PADS_REL_ENV))]
+        ops.append(o)
+    c["ops"] = ops
+    return c
+
+
+def gen_poke_run(rng):
+    """Mostly `next` over several loops of a definite source, the client writing `.loop` once or twice."""
+    n = rng.choice([2, 2, 3])
+    loops = rng.choice([2, 3, -1])
+    total = n * (loops if loops > 0 else 3) + 2
+    ops = [["next"] for _ in range(total)]
+    for _ in range(rng.choice([1, 1, 2])):
+        ops.insert(rng.randrange(0, max(1, total - n)), ["poke", rng.choice(POKES)])
+    if rng.random() < 0.3:
+        ops.insert(rng.randrange(len(ops)), gen_seek(rng, n, rng.randrange(n)))
+    return env_case(n=n, loops=loops, cache=rng.choice([False, True, n]), size=list(rng.choice(SIZES)),
+                    dur=rng.choice(DURS), stamp=rng.random() < 0.5, term0=list(rng.choice(TERMS)), ops=ops)
+
+
+def gen_session_case(rng):
+    """Two iterators, one after the other, over ONE caller-owned render data object of a definite source:
+    the first advanced k frames (or run through any short history), closed or simply dropped; the second
+    iterated fully (or run through any history)."""
+    n = rng.choice([2, 3, 3, 5])
+    if rng.random() < 0.65:
+        k = rng.choice([0, 1, n - 1, n, n, rng.randint(1, n), n + 1])
+        ops1 = [["next"] for _ in range(k)]
+        y = rng.random()
+        if y < 0.2:
+            ops1.append(gen_seek(rng, n, k if k < n else n))
+        elif y < 0.35:
+            ops1.append(rng.choice([["size", list(rng.choice(SIZES))], ["dur", rng.choice(DURS)]]))
+        if rng.random() < 0.5:
+            ops1.append(["close"])
+    else:
+        ops1 = (gen_env_case(rng, 8) if rng.random() < 0.3 else gen_case(rng, 8, fault_p=0.0))["ops"]
+    loops2 = rng.choice([1, 2, 2, -1])
+    if rng.random() < 0.6:
+        ops2 = [["next"] for _ in range(n * (loops2 if loops2 > 0 else 2) + 1)]
+        if rng.random() < 0.3:
+            ops2.insert(0, ["seek", rng.choice([1, -1, 0]), 1, True])
+    else:
+        ops2 = gen_case(rng, 12, fault_p=0.0)["ops"]
+    c = env_case(n=n, loops=rng.choice([1, 2, -1]), cache=rng.choice([False, True, n]),
+                 size=list(rng.choice(SIZES)), dur=rng.choice(DURS), pad=gen_pad(rng), owns=False,
+                 frame=0 if rng.random() < 0.6 else rng.randrange(n), stamp=rng.random() < 0.5,
+                 term0=list(rng.choice(TERMS)), ops=ops1)
+    # (seeks of borrowed histories were aimed at another frame count: they are simply valid or invalid seeks here)
+    c["second"] = second_cfg(ops2, loops=loops2, cache=rng.choice([False, True, n]), pad=gen_pad(rng),
+                             args=rng.choice(ARGS), owns=rng.random() < 0.2)
+    return c
+
+
+RZ, PK = (lambda w, h: ["resize", [w, h]]), (lambda v: ["poke", v])
+ENV_CORPUS = [
+    # a terminal-relative padding is resolved upon reception and persists over resizes / set_render_size
+    env_case(n=3, loops=2, pad=["A", 0, -2, 1, 1], ops=[N, RZ(40, 10), N, ["size", [2, 1]], N, N]),
+    env_case(n=3, loops=2, ops=[N, ["pad", ["A", -10, -5, 0, 0]], N, RZ(100, 50), S(1), ["size", [3, 2]], N,
+                                ["size", [1, 1]], N]),
+    env_case(n=2, loops=-1, cache=True, stamp=True, pad=["A", -70, -25, 0, 2], term0=[100, 50],
+             ops=[N, N, RZ(20, 5), N, ["size", [2, 3]], N, N, ["pad", ["A", 0, 0, 1, 1]], N, RZ(80, 30), N,
+                  ["size", [1, 1]], N]),
+    env_case(n=None, total=6, pad=["A", 0, 0, 1, 1], term0=[40, 10], ops=[N, RZ(80, 24), ["size", [2, 1]], N,
+                                                                           ["pad", ["A", 0, 0, 1, 1]], N]),
+    env_case(n=2, pad=["A", 0, 0, 1, 1], term0=[20, 5], ops=[RZ(30, 30), ["close"], ["pad", ["A", 0, 0, 1, 1]],
+                                                             ["size", [1, 1]], N]),
+    # writing `.loop` does not affect the iterator; the countdown shows again at the next end-of-pass update
+    env_case(n=3, loops=3, ops=[N, N, PK(1)] + [N] * 9),
+    env_case(n=2, loops=2, cache=True, ops=[N, PK(0), N, N, N, N, N]),
+    env_case(n=2, loops=2, ops=[N, N, N, PK(7), N, N, N]),
+    env_case(n=3, loops=-1, ops=[N, PK(2), N, N, N, N, PK(-1), N, N, N]),
+    env_case(n=3, loops=3, ops=[PK(-1)] + [N] * 11),
+    env_case(n=2, loops=2, ops=[N, N, N, N, N, PK(5), N, S(0), ["close"], PK(1), N]),
+    env_case(n=None, total=3, ops=[N, PK(3), N, N, N, PK(2), N]),
+    # a second iterator over re-used render data starts at frame 0, full countdown
+    env_case(n=5, owns=False, ops=[N, N, N, ["close"]], second=second_cfg([N] * 11, loops=2)),
+    env_case(n=5, owns=False, ops=[N] * 5, second=second_cfg([N, N], loops=2)),
+    env_case(n=5, owns=False, ops=[N, N], second=second_cfg([S(1, 1), N, S(-3, 1), N])),
+    env_case(n=3, owns=False, loops=2, cache=True, frame=2, ops=[N, N, N, N, ["size", [2, 1]], ["dur", 7]],
+             second=second_cfg([N] * 4, cache=True, pad=["A", 0, 0, 1, 1])),
+    env_case(n=2, owns=False, ops=[N, S(1), RZ(40, 10)], second=second_cfg([N, N, N], pad=["A", 0, -2, 1, 1])),
+    env_case(n=2, owns=False, ops=[N], second=second_cfg([N], loops=0)),
+]
+
+
+def events(term0, ops):
+    """the events of a history: [(terminal size in force, step)], the indices of those steps, the final size"""
+    cur, evs, keep = list(term0), [], []
+    for i, o in enumerate(ops):
+        if o[0] == "resize":
+            cur = list(o[1])
+        else:
+            evs.append((cur, o))
+            keep.append(i)
+    return evs, keep, cur
+
+
+def ev_t(e):
+    t, o = e
+    if o[0] == "poke":
+        return f"({size_t(t)}, EPoke {z(o[1])})"
+    return f"({size_t(t)}, EOp ({op_t(o)}))"
+
+
+def ctor_t(x):
+    return "None" if x is None or x[0] == "ok" else f"(Some {err_t(x[1:])})"
+
+
+def ecase_t(c, r):
+    faults = core.coq_list(sorted((int(k), v) for k, v in c.get("faults", {}).items()),
+                           lambda kv: f"({kv[0]}%nat, {z(kv[1])})")
+    ffaults = core.coq_list(sorted((int(k), v) for k, v in c.get("ffaults", {}).items()),
+                            lambda kv: f"({z(kv[0])}, {z(kv[1])})")
+    n = "None" if c["n"] is None else f"(Some {z(c['n'])})"
+    evs, keep, cur = events(c.get("term0", [80, 30]), c["ops"])
+    steps = r.get("ops", [])
+    kept = [steps[i] for i in keep if i < len(steps)]
+    obs = core.coq_list(kept, lambda x: f"({out_t(x[0])}, {z(x[1])})")
+    tells = core.coq_list(kept, lambda x: z(x[2]))
+    sec = c.get("second")
+    if sec is None:
+        second, ctor2, obs2, tells2 = "None", "None", "[]", "[]"
+    else:
+        evs2, keep2, _ = events(sec.get("term", cur), sec["ops"])
+        cfg2 = dict(sec, size=c["size"], dur=c["dur"], frame=c.get("frame", 0))
+        second = f"(Some ({size_t(sec.get('term', cur))}, {cfg_t(cfg2)}, {core.coq_list(evs2, ev_t)}))"
+        steps2 = r.get("ops2", [])
+        kept2 = [steps2[i] for i in keep2 if i < len(steps2)]
+        ctor2 = ctor_t(r.get("ctor2"))
+        obs2 = core.coq_list(kept2, lambda x: f"({out_t(x[0])}, {z(x[1])})")
+        tells2 = core.coq_list(kept2, lambda x: z(x[2]))
+    return (f"{{| e_n := {n}; e_total := {z(c.get('total', 5))}; e_faults := {faults}; e_ffaults := {ffaults}; "
+            f"e_stamp := {'true' if c.get('stamp') else 'false'}; e_term0 := {size_t(c.get('term0', [80, 30]))}; "
+            f"e_cfg := {cfg_t(c)}; e_hist := {core.coq_list(evs, ev_t)}; e_ctor := {ctor_t(r['ctor'])}; "
+            f"e_obs := {obs}; e_tells := {tells}; e_second := {second}; e_ctor2 := {ctor2}; e_obs2 := {obs2}; "
+            f"e_tells2 := {tells2}; e_log := {core.coq_list(r['log'], rcall_t)} |}}")
+
+
+ENV_HEADER = ("From Coq Require Import List ZArith.\nImport ListNotations.\n"
+              "From TI Require Import model.Iter model.IterSpec model.IterTie model.IterEnv model.IterEnvTie.\n"
+              "Open Scope nat_scope.\n")
+
+
+def is_env(c):
+    return c.get("mode") == "env"
+
+
+def evaluate_env(cases, tag="c08e"):
+    """Returns (codes per case, errors, impl results)."""
+    impl = core.run_impl_parallel("impl_c08.py", cases, timeout=IMPL_TIMEOUT[0])
+    terms = [ecase_t(c, r) for c, r in zip(cases, impl)]
+    codes = [0] * len(cases)
+    res, errors = core.coq_shards(tag, ENV_HEADER, terms, "ecase", "bad_env cases", shard=120)
+    for idx, code in res:
+        codes[idx] = code
+    return codes, errors, impl
+
+
+def evaluate_any(cases, tag="c08"):
+    """plain and env cases mixed"""
+    pi = [k for k, c in enumerate(cases) if not is_env(c)]
+    ei = [k for k, c in enumerate(cases) if is_env(c)]
+    codes, errors, impl = [0] * len(cases), [], [None] * len(cases)
+    for idx, fn, t in ((pi, evaluate, tag), (ei, evaluate_env, tag + "e")):
+        if idx:
+            c2, e2, i2 = fn([cases[k] for k in idx], tag=t)
+            errors += e2
+            for k, code, r in zip(idx, c2, i2):
+                codes[k], impl[k] = code, r
+    return codes, errors, impl
+
+
+def fails_env(cands, tag="c08es"):
+    codes, errors, _ = evaluate_env(cands, tag=tag)
+    return [code >= 2 and not errors for code in codes]
+
+
+def shrink_env(case, fails, tag, rounds=30):
+    """Greedy, batched, like `shrink`: single steps, prefixes, removals on both histories; dropping the second
+    iterator; default configurations."""
+    cur = case
+    dflt = env_case()
+    cfg_fields = ("faults", "ffaults", "stamp", "frame", "args", "dur", "size", "cache", "loops", "pad", "total",
+                  "term0")
+    sec_dflt = second_cfg([])
+    sec_fields = ("args", "pad", "loops", "cache", "owns")
+
+    def with_ops(which, ops):
+        c = copy.deepcopy(cur)
+        if which == 0:
+            c["ops"] = ops
+        else:
+            c["second"]["ops"] = ops
+        return c
+
+    for _ in range(rounds):
+        if core.over_budget():
+            break
+        cands = []
+        lists = [(0, cur["ops"])] + ([(1, cur["second"]["ops"])] if cur.get("second") else [])
+        if cur.get("second"):
+            c = copy.deepcopy(cur)
+            del c["second"]
+            cands.append(c)
+        for which, ops in lists:
+            if len(ops) > 1:
+                cands += [with_ops(which, [copy.deepcopy(o)]) for o in ops]
+                cands += [with_ops(which, copy.deepcopy(ops[:k])) for k in range(1, len(ops))]
+        if any(cur.get(f) != dflt[f] for f in cfg_fields):
+            c = copy.deepcopy(cur)
+            for f in cfg_fields:
+                c[f] = copy.deepcopy(dflt[f])
+            cands.append(c)
+        for which, ops in lists:
+            if len(ops) >= 1 and not (which == 0 and len(ops) == 1 and not cur.get("second")):
+                cands += [with_ops(which, copy.deepcopy(ops[:k] + ops[k + 1:])) for k in range(len(ops))]
+        for f in cfg_fields:
+            if cur.get(f) != dflt[f]:
+                c = copy.deepcopy(cur)
+                c[f] = copy.deepcopy(dflt[f])
+                cands.append(c)
+        if cur.get("second"):
+            for f in sec_fields:
+                if cur["second"].get(f) != sec_dflt[f]:
+                    c = copy.deepcopy(cur)
+                    c["second"][f] = copy.deepcopy(sec_dflt[f])
+                    cands.append(c)
+        if cur.get("n") not in (2, None):
+            c = copy.deepcopy(cur)
+            c["n"] = 2
+            cands.append(c)
+        cands = [c for c in cands if c.get("n") is None or (0 <= c.get("frame", 0) < c["n"])]
+        cands = [c for c in cands if not (c.get("second") and c.get("owns", True))]
+        if not cands:
+            break
+        try:
+            verdicts = fails(cands, tag)
+        except Exception:  # noqa: BLE001 — a candidate the driver cannot set up: judge one by one
+            verdicts = []
+            for c in cands:
+                try:
+                    verdicts.append(fails([c], tag)[0])
+                except Exception:  # noqa: BLE001
+                    verdicts.append(False)
+        nxt = next((c for c, v in zip(cands, verdicts) if v), None)
+        if nxt is None:
+            break
+        cur = nxt
+    return cur
+
+
+def describe_env(c):
+    def one(o):
+        if o[0] == "seek":
+            return f"seek({o[1]},{WH[o[2]][1:].upper()})"
+        if o[0] == "resize":
+            return f"TERMINAL-RESIZED-TO{tuple(o[1])}"
+        if o[0] == "poke":
+            return f"iterator.loop={o[1]}"
+        return o[0] if len(o) == 1 else f"{o[0]}({json.dumps(o[1])})"
+    n = "INDEFINITE" if c["n"] is None else c["n"]
+    s = (f"terminal={tuple(c.get('term0', [80, 30]))} frames={n} loops={c['loops']} cache={c['cache']} "
+         f"size={c['size']} dur={c['dur']} args={c['args']} pad={c['pad']} owns={c.get('owns', True)} "
+         f"tell={c.get('frame', 0)} faults={c.get('faults', {})} ops=[{', '.join(map(one, c['ops']))}]")
+    sec = c.get("second")
+    if sec:
+        s += (f" THEN the iterator is dropped and a second one made over the same render data: loops={sec['loops']} "
+              f"cache={sec['cache']} args={sec['args']} pad={sec['pad']} finalize={sec.get('owns', False)} "
+              f"ops=[{', '.join(map(one, sec['ops']))}]")
+    return s
+
+
+def signature_env(c):
+    return core.sig({k: c.get(k) for k in ("mode", "term0", "n", "loops", "cache", "size", "dur", "args", "pad", "owns",
+                                           "frame", "faults", "ffaults", "ops", "second")})
+
+
+def report_env_failures(cases, codes, impl, max_shrunk=2, max_reported=6):
+    failing = [k for k, code in enumerate(codes) if code >= 2]
+    if not failing:
+        return []
+
+    def family(c):
+        ks = {o[0] for o in c["ops"]} | ({"second"} if c.get("second") else set())
+        return tuple(sorted(ks & {"resize", "poke", "second"}))
+    # one representative per family of environment change first, shortest first
+    failing.sort(key=lambda k: len(cases[k]["ops"]) + len((cases[k].get("second") or {}).get("ops", [])))
+    chosen, seen = [], set()
+    for k in failing:
+        if family(cases[k]) not in seen:
+            seen.add(family(cases[k]))
+            chosen.append(k)
+    chosen += [k for k in failing if k not in chosen]
+    chosen = chosen[:max_reported]
+    minimal = [shrink_env(cases[k], fails_env, "c08es") if j < max_shrunk else cases[k]
+               for j, k in enumerate(chosen)]
+    uniq = {}
+    for m in minimal:
+        uniq.setdefault(signature_env(m), m)
+    keys = list(uniq)
+    c2, _, impl2 = evaluate_env([uniq[k] for k in keys], "c08er")
+    out = []
+    for k, code, obs in zip(keys, c2, impl2):
+        m = uniq[k]
+        seen_obs = [x[0] for x in obs.get("ops", [])] + ([["second:"] + [x[0] for x in obs.get("ops2", [])]]
+                                                         if m.get("second") else [])
+        out.append({
+            "signature": k,
+            "what": "iterator history in a changing environment (terminal resizes / writes to .loop / render data "
+                    "re-used by a second iterator) contradicts the documented model (IterSpec over IterEnv events): "
+                    + describe_env(m) + " -> observed " + json.dumps(seen_obs)[:700]
+                    + f" [{len(failing)} failing env case(s) in this run]",
+            "replay": {"case": m, "observed": obs, "code": code},
+        })
+    return out
+
+
+def env_histogram(cases, impl):
+    h = {"env_cases": len(cases), "resizes": 0, "set_render_size_after_resize_under_relative_padding": 0,
+         "set_padding_relative_after_resize": 0, "frames_after_resize": 0, "pokes": {}, "pokes_before_a_wrap": 0,
+         "pokes_on_open_iterator": 0, "terminal_sizes": {}, "second_iterators": 0, "second_first_advanced_k": {},
+         "second_first_closed_explicitly": 0, "second_refused": 0, "second_frames": 0,
+         "padding_kind_ctor": {}}
+
+    def inc(k, v):
+        v = str(v)
+        h[k][v] = h[k].get(v, 0) + 1
+
+    for c, r in zip(cases, impl):
+        inc("padding_kind_ctor", pad_kind(c["pad"]))
+        inc("terminal_sizes", tuple(c.get("term0", [80, 30])))
+        if r["ctor"][0] != "ok":
+            continue
+        resized, rel = False, pad_kind(c["pad"]) == "aligned-relative"
+        for i, (o, x) in enumerate(zip(c["ops"], r["ops"])):
+            if o[0] == "resize":
+                h["resizes"] += 1
+                resized = True
+                inc("terminal_sizes", tuple(o[1]))
+            elif o[0] == "pad":
+                rel = pad_kind(o[1]) == "aligned-relative"
+                h["set_padding_relative_after_resize"] += resized and rel and x[0][0] == "K"
+            elif o[0] == "size":
+                h["set_render_size_after_resize_under_relative_padding"] += resized and rel and x[0][0] == "K"
+            elif o[0] == "poke":
+                inc("pokes", o[1])
+                later = [y[0] for y in r["ops"][i + 1:]]
+                h["pokes_on_open_iterator"] += any(y[0] == "F" for y in later)
+                nums = [y[1] for y in later if y[0] == "F"]
+                h["pokes_before_a_wrap"] += any(b <= a for a, b in zip(nums, nums[1:])) if c["n"] else 0
+            elif o[0] == "next" and x[0][0] == "F":
+                h["frames_after_resize"] += resized
+        if c.get("second"):
+            h["second_iterators"] += 1
+            inc("second_first_advanced_k", sum(1 for x in r["ops"] if x[0][0] == "F"))
+            h["second_first_closed_explicitly"] += any(o[0] == "close" for o in c["ops"])
+            h["second_refused"] += (r.get("ctor2") or ["ok"])[0] != "ok"
+            h["second_frames"] += sum(1 for x in r.get("ops2", []) if x[0][0] == "F")
+    return h
+
+
+def nontrivial_env(c, r):
+    """an environment change (resize, write to .loop, or a second iterator) and >= 2 frames yielded"""
+    if r["ctor"][0] != "ok":
+        return False
+    frames = sum(1 for x in r["ops"] + r.get("ops2", []) if x[0][0] == "F")
+    return frames >= 2 and (bool(c.get("second")) or any(o[0] in ("resize", "poke") for o in c["ops"]))
+
+
+def exhaustive_env_small(maxlen):
+    """every history of length <= maxlen over a small alphabet with a resize and writes to .loop"""
+    import itertools
+    alphabet = [N, RZ(40, 10), PK(0), PK(5), ["size", [2, 1]], ["pad", ["A", 0, -2, 1, 1]], S(0)]
+    out = []
+    for ln in range(1, maxlen + 1):
+        for ops in itertools.product(alphabet, repeat=ln):
+            if any(o[0] in ("resize", "poke") for o in ops):
+                out.append(env_case(n=2, loops=2, cache=True, stamp=True, pad=["A", 0, 0, 1, 1],
+                                    ops=[copy.deepcopy(list(o)) for o in ops]))
+    return out
+
+
+
 def run(ctx):
     rng = ctx.rng
     if ctx.replay:
         cases = [ctx.replay["replay"]["case"]]
+        env_cases = [c for c in cases if is_env(c)]
+        cases = [c for c in cases if not is_env(c)]
     else:
         ngen = 800 if ctx.quick else 12000
         cases = [copy.deepcopy(c) for c in CORPUS]
         cases += [gen_case(rng, 25 if i % 4 else 40) for i in range(ngen)]
         if not ctx.quick:
             cases += exhaustive_small(4)
-    codes, errors, impl = evaluate(cases)
+        n_env, n_poke, n_sess = (220, 40, 80) if ctx.quick else (3000, 400, 800)
+        env_cases = [copy.deepcopy(c) for c in ENV_CORPUS]
+        env_cases += [gen_env_case(rng, 25 if i % 4 else 40) for i in range(n_env)]
+        env_cases += [gen_poke_run(rng) for _ in range(n_poke)]
+        env_cases += [gen_session_case(rng) for _ in range(n_sess)]
+        if not ctx.quick:
+            env_cases += exhaustive_env_small(4)
+    if ctx.quick:
+        from concurrent.futures import ThreadPoolExecutor
+        with ThreadPoolExecutor(max_workers=2) as ex:  # the two families are independent: overlap them
+            f1 = ex.submit(lambda: evaluate(cases) if cases else ([], [], []))
+            f2 = ex.submit(lambda: evaluate_env(env_cases) if env_cases else ([], [], []))
+            codes, errors, impl = f1.result()
+            ecodes, eerrors, eimpl = f2.result()
+    else:
+        IMPL_TIMEOUT[0] = 3000
+        codes, errors, impl = evaluate(cases) if cases else ([], [], [])
+        ecodes, eerrors, eimpl = evaluate_env(env_cases) if env_cases else ([], [], [])
+    errors = errors + eerrors
     failures = report_failures(cases, codes, fails_spec8, "c08s",
                                "iterator history contradicts the documented model (IterSpec)", evaluate)
+    failures += report_env_failures(env_cases, ecodes, eimpl)
     mismatches = [{"case": cases[i], "code": code, "observed": impl[i]} for i, code in enumerate(codes) if code == 1]
+    mismatches += [{"case": env_cases[i], "code": code, "observed": eimpl[i]}
+                   for i, code in enumerate(ecodes) if code == 1]
     distinct = {signature(c) for c, r in zip(cases, impl) if nontrivial(c, r)}
+    distinct |= {signature_env(c) for c, r in zip(env_cases, eimpl) if nontrivial_env(c, r)}
+    hist = histogram(cases, impl)
+    hist["environment"] = env_histogram(env_cases, eimpl)
     return {
         "corr_name": "Iter.trace (model) == IterSpec.spec_trace (documented machine) == real RenderIterator history "
-                     "on the instrumented renderable VR (frames, loop countdown, errors, render-call log, tell())",
-        "evaluations": len(cases),
+                     "on the instrumented renderable VR (frames, loop countdown, errors, render-call log, tell()); "
+                     "and IterEnv.trace_env == IterEnv.spec_trace_env == real history with terminal resizes, client "
+                     "writes to iterator.loop, and a second iterator over re-used render data",
+        "evaluations": len(cases) + len(env_cases),
         "distinct_nontrivial": len(distinct),
         "rule": "corpus of boundary histories + random histories (1-40 ops, Next-weighted, seeks aimed at "
                 "{0, n-1, n, -1, current} and at the end-of-pass boundary, setters incl. invalid values, close/drop) "
@@ -547,9 +1010,19 @@ def run(ctx):
                 "exact / aligned-absolute / aligned-terminal-relative paddings, static / DYNAMIC durations, own or "
                 "caller-owned render data, 15% with a fault (exception or StopIteration) at a random _render_ call; "
                 "thorough adds every history of length <= 4 over a 10-letter alphabet on a 2-frame renderable. "
-                "Non-trivial: >= 4 ops, >= 2 frames yielded, >= 1 seek or setter; distinct by full case hash.",
-        "samples": [describe(c) for c in cases[:2] + cases[len(CORPUS):len(CORPUS) + 3]],
-        "histogram": histogram(cases, impl),
+                "Non-trivial: >= 4 ops, >= 2 frames yielded, >= 1 seek or setter; distinct by full case hash. "
+                "ENVIRONMENT family (IterEnv): the same histories with terminal RESIZES interleaved (7 terminal sizes "
+                "incl. the construction-time one; a resize is often followed by set_render_size or a relative "
+                "set_padding; terminal-relative padding at construction in 55%), client WRITES to iterator.loop "
+                "(values 0, 1, 2, -1, 1000; plus next-only runs over 2-3 loops with 1-2 writes), and SESSIONS of two "
+                "iterators over one caller-owned render data of a definite source (first advanced k in 0..n+1 frames "
+                "or run through a short history, closed or just dropped; second iterated fully or run through a "
+                "history); thorough adds every history of length <= 4 over a 7-letter alphabet containing a resize "
+                "or a write.  Non-trivial there: an environment change and >= 2 frames.",
+        "samples": [describe(c) for c in cases[:2] + cases[len(CORPUS):len(CORPUS) + 3]]
+                   + [describe_env(c) for c in env_cases[:1] + env_cases[len(ENV_CORPUS):len(ENV_CORPUS) + 2]
+                      + env_cases[-1:]],
+        "histogram": hist,
         "mismatches": mismatches,
         "failures": failures,
         "errors": errors,
@@ -558,9 +1031,14 @@ def run(ctx):
             "frame, raise StopIteration or raise another exception); with caching enabled the refinement "
             "theorem additionally assumes it deterministic (render_det)",
             "the generator object of _iterate is modelled by its two suspension points and live locals",
-            "get_terminal_size() is constant during an iterator's life (80x30 in the correspondence)",
+            "the terminal size may change between any two operations of an iterator (IterEnv events carry the size in "
+            "force); it is taken to be constant WITHIN one operation",
+            "the only client write modelled is the assignment to the public attribute `loop`; private attributes are "
+            "not written by clients",
             "padding outputs are identified with their (left, top, right, bottom) dimensions (C05 covers the string)",
         ],
         "trusted": ["impl driver decodes padded outputs of the instrumented renderable by counting fill characters; "
-                    "classifies exceptions by class; reads iterator.loop and renderable.tell() after every operation"],
+                    "classifies exceptions by class; reads iterator.loop and renderable.tell() after every operation; "
+                    "a resize is delivered by replacing `get_terminal_size` in every loaded term_image module (and "
+                    "COLUMNS / LINES)"],
     }
